@@ -249,8 +249,12 @@ def w_gateway(g, t):
 
 
 def w_ipseckey(g):
+    # grid gateway type 0..3 x algorithm {0 (no key, RFC 4025 2.4), 1, 2, other} x key empty / non-empty: the key may be
+    # omitted in text only when the algorithm is 0, whatever the gateway type
     t = g.r.choice([0, 1, 2, 3])
-    return g.p8() + bytes([t]) + g.p8() + w_gateway(g, t) + g.blob()
+    alg = g.r.choice([0, 0, 1, 2, g.u8()])
+    key = b"" if g.r.chance(1, 2) else g.blob(1)
+    return g.p8() + bytes([t, alg]) + w_gateway(g, t) + key
 
 
 def w_amtrelay(g):
